@@ -22,6 +22,8 @@ FVECS = {'Vec2': ('f32', 2), 'Vec3': ('f32', 3), 'Vec3A': ('f32', 3), 'Vec4': ('
 UN = {'abs': 'FAbs', 'signum': 'FSignum', 'floor': 'FFloor', 'ceil': 'FCeil', 'trunc': 'FTrunc', 'round': 'FRound', 'recip': 'RECIP', 'exp': 'FExp'}
 BIN = {'Add': 'FAdd', 'Sub': 'FSub', 'Mul': 'FMul', 'Div': 'FDiv', 'Rem': 'FRem'}
 BINM = {'copysign': 'FCopysign', 'div_euclid': 'FDivEuclid', 'rem_euclid': 'FRemEuclid'}
+TRICK = {'floor': '(floor_lane O %(x)s)', 'ceil': '(ceil_lane O %(x)s)', 'trunc': '(trunc_lane O %(x)s)', 'round': '(round_lane O %(x)s)',
+         'fract': '(f32_2 O FSub %(x)s (trunc_lane O %(x)s))', 'fract_gl': '(f32_2 O FSub %(x)s (floor_lane O %(x)s))'}     # multi-instruction SSE2 operations (src/sse2.rs m128_*)
 SSE_DIRECT = {'Add', 'Sub', 'Mul', 'Div', 'min', 'max'}     # single lane-wise SSE2 instructions (min/max = the documented compare-select)
 
 def simd_backed(structs, n):
@@ -68,13 +70,14 @@ def lanewise(cfg, structs, f, n, k, d, opname, prim, unary=False, scalar_left=Fa
     run = 'run O tbl 200 %d%%positive %s' % (f['fid'], args); sh = ty_shape(structs, ret)
     lhs = ('rerase O (%s) (%s)' % (sh, run)) if core.shape_has_hidden(sh) else run
     if cfg == 'libm' and opname in ('div_euclid', 'rem_euclid', 'signum'): return None     # libm builds spell these out; covered by the correspondence run only
-    sse_trick = simd and not cfg.startswith('coresimd') and opname in ('floor',)      # lane function defined in coq/theories/FloatTricks.v and proved equal to the primitive there
+    sse_trick = simd and not cfg.startswith('coresimd') and opname in TRICK      # lane function defined in coq/theories/FloatTricks.v and proved equal to the IEEE primitive there
+    sse_rem = simd and not cfg.startswith('coresimd') and opname == 'Rem'          # known deviation (floored remainder): the full-strength lemma is stated and fails; a second lemma pins the present behaviour
     direct = (not simd) or (opname in SSE_DIRECT) or sse_trick or (cfg.startswith('coresimd') and (opname in UN or opname in BIN or opname in BINM or opname in ('neg', 'min', 'max', 'fract', 'fract_gl', 'clamp', 'powf')))
-    if opname == 'mul_add' and simd: direct = False
+    if sse_rem: direct = True
     if direct:
         def lane(i):
             x = [a[i] for a in A]
-            if sse_trick and opname == 'floor': return '(floor_lane O %s)' % x[0]
+            if sse_trick: return TRICK[opname] % {'x': x[0]}
             if prim == 'RECIP': return op2(k, 'FDiv', '(%s_of_bits O %d)' % (k, 1065353216 if k == 'f32' else 4607182418800017408), x[0])
             if prim and (unary): return op1(k, prim, x[0])
             if opname == 'powf': return op2(k, 'FPowf', x[0], x[1])
@@ -92,7 +95,10 @@ def lanewise(cfg, structs, f, n, k, d, opname, prim, unary=False, scalar_left=Fa
             lanes = [op2(k, prim2, A[0][i], A[1][i]) for i in range(d)]
         else: lanes = [lane(i) for i in range(d)]
         d = {'vars': vs, 'lhs': lhs, 'rhs': 'Ok (%s)' % tree_fill(rt, iter(lanes)), 'spec': 'direct %s' % opname}
-        if sse_trick: d['pre'] = 'i_1 O U32 INot 2147483648 = Some 2147483647'; d['spec'] = 'lane function FloatTricks.%s_lane (proved equal to the IEEE primitive)' % opname
+        if sse_trick: d['pre'] = 'i_1 O U32 INot 2147483648 = Some 2147483647'; d['spec'] = 'lane function of FloatTricks.v for %s (proved equal to the IEEE primitive there)' % opname
+        if sse_rem:
+            fl = [op2(k, 'FSub', A[0][i], op2(k, 'FMul', '(floor_lane O %s)' % op2(k, 'FDiv', A[0][i], A[1][i]), A[1][i])) for i in range(len(lanes))]
+            return [d, {'vars': vs, 'lhs': lhs, 'rhs': 'Ok (%s)' % tree_fill(rt, iter(fl)), 'spec': 'sse2 %% is a - floor(a / b) * b per lane (present behaviour, FloatTricks.rem_floored_refuted)', 'pre': 'i_1 O U32 INot 2147483648 = Some 2147483647'}]
         return d
     # lane uniformity: every lane is lane 0 of the same function on splatted operands
     paths = [leaf_path(rt, i) for i in range(d)]
